@@ -16,6 +16,7 @@ type TypeSpec struct {
 	Align   int    `json:"align,omitempty"`   // element size for aligned: 2,4,8
 	Fillers int    `json:"fillers,omitempty"` // filler registrations placed before this type (pushes its ID up)
 	Late    bool   `json:"late,omitempty"`    // registered by a late-registration step instead of at setup
+	UID     int    `json:"uid,omitempty"`     // identity of the Go type: equal UID+shape in two plans gives the same reflect.Type (0 = position)
 }
 
 var relationType = reflect.TypeOf(ecs.Relation{})
@@ -58,6 +59,9 @@ func (t TypeSpec) IsRelation() bool { return t.Kind == "rel" || t.Kind == "ptrre
 // BuildType constructs the reflect.Type for spec number k of a plan. Distinct k give distinct types.
 func BuildType(t TypeSpec, k int, ptrSeq *int) reflect.Type {
 	name := fmt.Sprintf("F%d", k)
+	if t.UID > 0 {
+		name = fmt.Sprintf("U%d", t.UID)
+	}
 	byteT := reflect.TypeOf(uint8(0))
 	switch t.Kind {
 	case "bytes":
